@@ -174,11 +174,22 @@ def rand_chunks(rng, c, three=False):
             rows, cols = [x for x in rows if rng.random() < 0.6], [x for x in cols if rng.random() < 0.6]
         zch, zcls = (cuts_to_chunks(c["h"], rows), cuts_to_chunks(c["w"], cols)), "layout"
     u = rng.random()
-    if u < 0.2:
+    if u < 0.15:
         vch, vcls = zch, zcls
-    elif u < 0.35:                    # the same along one axis, different along the other
+    elif u < 0.3:                     # the same along one axis, different along the other
         other, vcls = raster_chunks(rng, c["h"], c["w"])
         vch = (zch[0], other[1]) if rng.random() < 0.5 else (other[0], zch[1])
+    elif u < 0.5:                     # the same chunk sizes in another order (a flipped / rolled raster): same number of
+        def perm(ch):                 # blocks, same largest chunk, other borders
+            ch = list(ch)
+            if len(set(ch)) > 1:
+                first = tuple(ch)
+                while tuple(ch) == first:
+                    rng.shuffle(ch)
+            return tuple(ch)
+        vch, vcls = (perm(zch[0]), perm(zch[1])), "permuted"
+        if vch == tuple(zch):         # all chunks of an axis equal: nothing to permute
+            vch, vcls = raster_chunks(rng, c["h"], c["w"])
     else:
         vch, vcls = raster_chunks(rng, c["h"], c["w"])
     if three:
@@ -317,7 +328,8 @@ def run(r, scale=1.0):
     r.rule = ("rasters 1x1..5x6 as in C02 / C04 (every requested table has at least one existing zone); zones and values "
               "chunked independently, each axis of each raster from a chunk class: random composition / one chunk / 1-cell "
               "chunks / equal chunks of size k with a ragged remainder (one class for the whole raster or one per axis), or on "
-              "the zone layout's own edges (3-D: also the layer axis); 20% equal chunkings, 15% equal along one axis only; "
+              "the zone layout's own edges (3-D: also the layer axis); values: 15% the zones' chunking, 15% equal along one axis "
+              "only, 20% the zones' chunk sizes in another order, 50% independent; "
               "dimension names: ('y','x') on both rasters (35%), other names on both (10%), different names on the two "
               "rasters (35%: chunks cannot be matched by name), the same two names the other way round (20%), names taken "
               "from y,x / lat,lon / row,col / northing,easting / none given (dim_0, dim_1); 3-D values with a layer dimension "
